@@ -81,14 +81,45 @@ def _evict(keep_hash):
     byhash = {}
     for d in ents:
         byhash.setdefault(d[:16], []).append(d)
+    # housekeeping: markers of dead processes, lock files of builds that are long gone
+    now = time.time()
+    for m in os.listdir(BUILD_ROOT):
+        try:
+            if m.startswith(".inuse-"):
+                try:
+                    os.kill(int(m.rsplit("-", 1)[1]), 0)
+                except (OSError, ValueError):
+                    os.unlink(os.path.join(BUILD_ROOT, m))
+            elif m.startswith(".lock-") and m[6:22] not in byhash and now - os.path.getmtime(os.path.join(BUILD_ROOT, m)) > 3600:
+                os.unlink(os.path.join(BUILD_ROOT, m))
+        except OSError:
+            pass
     if len(byhash) <= 12:
         return
     order = sorted(byhash, key=lambda h: max(os.path.getmtime(os.path.join(BUILD_ROOT, d)) for d in byhash[h]))
     for h in order[:-12]:
-        if h == keep_hash:
+        if h == keep_hash or _in_use(h):
             continue
         for d in byhash[h]:
             shutil.rmtree(os.path.join(BUILD_ROOT, d), ignore_errors=True)
+        for m in os.listdir(BUILD_ROOT):
+            if m.startswith(".inuse-%s-" % h):
+                try:
+                    os.unlink(os.path.join(BUILD_ROOT, m))
+                except OSError:
+                    pass
+
+
+def _in_use(h):
+    """True if a live process has announced that it works with builds of tree hash h (marker files .inuse-<hash>-<pid>)."""
+    for m in os.listdir(BUILD_ROOT):
+        if m.startswith(".inuse-%s-" % h):
+            try:
+                os.kill(int(m.rsplit("-", 1)[1]), 0)
+                return True
+            except (OSError, ValueError):
+                pass
+    return False
 
 
 def build(flavour):
@@ -99,6 +130,7 @@ def build(flavour):
     fh = hashlib.sha256((fl["cc"] + fl["cflags"] + fl["ldflags"]).encode()).hexdigest()[:6]
     bdir = os.path.join(BUILD_ROOT, "%s-%s-%s" % (h, flavour, fh))
     stamp = os.path.join(bdir, ".complete")
+    open(os.path.join(BUILD_ROOT, ".inuse-%s-%d" % (h, os.getpid())), "w").close()   # several runs on different trees may go on at once
     lock = open(os.path.join(BUILD_ROOT, ".lock-%s-%s-%s" % (h, flavour, fh)), "w")
     fcntl.flock(lock, fcntl.LOCK_EX)
     try:
